@@ -1,6 +1,7 @@
 """C06 - algebraic einsum rewrites never change the computed value."""
 from __future__ import annotations
 
+import itertools
 import warnings
 
 import numpy as np
@@ -250,6 +251,41 @@ def cases(draw):
     return {"spec": spec, "policy": policy}, vals
 
 
+def mixed_dtype_gadgets():
+    """A @ (x +- y) with A, x of a narrow dtype whose products do not fit it
+    (int8/uint8/int16: wrap-around, float32: rounding) and y of a wider one:
+    the sum - and so the contraction - is carried out in the wide dtype;
+    distributing would contract A with x in the narrow one."""
+    big = {"int8": [100, 90, -100, 77, 100, 95, 99, -98, 100],
+           "uint8": [200, 190, 250, 177, 200, 195, 199, 198, 255],
+           "int16": [300, 290, -300, 277, 300, 295, 299, -298, 300],
+           "float32": [4097, 4099, -4097, 4101, 4097, 4103, 4099, -4101, 4097]}
+    for narrow, wide in (("int8", "int64"), ("int8", "int32"),
+                         ("int8", "float64"), ("uint8", "int64"),
+                         ("int16", "int64"), ("int16", "float64"),
+                         ("float32", "float64"), ("float32", "complex128")):
+        for op, swap, first in itertools.product(("add", "sub"), (0, 1), (0, 1)):
+            def ph(name, d, shape, values):
+                if d.startswith("complex"):
+                    values = [[v, 0] for v in values]
+                return {"op": "placeholder", "p": {
+                    "name": name, "dtype": d, "shape": shape, "scale": 0,
+                    "values": values}}
+            nodes = [ph("A", narrow, [3, 3], big[narrow]),
+                     ph("x", narrow, [3], big[narrow][:3]),
+                     ph("y", wide, [3], [1, 2, 3]),
+                     {"op": op, "args": [["n", 2], ["n", 1]] if swap
+                      else [["n", 1], ["n", 2]]}]
+            if first:
+                nodes.append({"op": "einsum", "p": {"spec": "j,ij->i"},
+                              "args": [["n", 3], ["n", 0]]})
+            else:
+                nodes.append({"op": "einsum", "p": {"spec": "ij,j->i"},
+                              "args": [["n", 0], ["n", 3]]})
+            yield {"spec": {"nodes": nodes, "outputs": [["out0", 4]]},
+                   "policy": [0 if first else 1]}
+
+
 def run_shard(shard: int, nshards: int, seed: int, tier: str) -> ShardResult:
     pl = plan(tier)
     res = ShardResult()
@@ -274,6 +310,10 @@ def run_shard(shard: int, nshards: int, seed: int, tier: str) -> ShardResult:
             res.fail(f, case)
 
     hyp_run(cases(), body, seed, pl["examples"])
+    for k, case in enumerate(mixed_dtype_gadgets()):
+        if k % nshards == shard:
+            res.count("mixed_dtype_gadget")
+            body((case, None))
     return res
 
 
